@@ -79,6 +79,8 @@ func fatConfigs(tier string) []fatCfg {
 		{Kind: "fat16", Size: 5 * MiB, Start: 512, Names: "plain"},
 		{Kind: "fat32", Size: 51200, Start: MiB, Names: "plain"},
 		{Kind: "fat32", Size: 34 * MiB, Start: 0, Names: "short"},
+		// FAT32 with 65.5k clusters already taken: every further allocation gets a cluster number >= 65536
+		{Kind: "fat32", Size: 34 * MiB, Start: 4096, Names: "plain", Preload: 65540 * 512},
 	}
 	if tier == "thorough" {
 		cfgs = append(cfgs,
@@ -102,6 +104,7 @@ func fatJobs(c *core.Ctx, pl *fatPlan) []fatJob {
 	var jobs []fatJob
 	cfgs := fatConfigs(c.Tier)
 	for ci, cfg := range cfgs {
+		preloaded := 0
 		small := cfg.Size <= 2*1024*1024
 		for bi, ops := range pl.behs {
 			// every behaviour runs on the small volumes; the large ones (whose every allocation
@@ -117,6 +120,17 @@ func fatJobs(c *core.Ctx, pl *fatPlan) []fatJob {
 			}
 			if hasFill && cfg.Size > 64*1024 {
 				continue // Fill is only meaningful (and affordable) where the volume is tiny
+			}
+			if cfg.Preload > 0 {
+				// expensive configuration: a few of the long walks only
+				maxPre := 8
+				if c.Tier == "thorough" {
+					maxPre = 40
+				}
+				if pl.label[bi] != "walk" || preloaded >= maxPre {
+					continue
+				}
+				preloaded++
 			}
 			jobs = append(jobs, fatJob{cfg, ops, pl.label[bi]})
 		}
